@@ -78,8 +78,8 @@ fn item_name(i: &syn::Item) -> String {
 }
 
 fn compare(what: &str, a: &str, b: &str, p: &Program, q: &Program) -> Result<(), Bad> {
-    let fa = proj::parse(a).map_err(Bad::Harness)?;
-    let fb = proj::parse(b).map_err(Bad::Harness)?;
+    let fa = proj::parse(a).map_err(unparsable)?;
+    let fb = proj::parse(b).map_err(unparsable)?;
     let ca = proj::canonical(&fa);
     let cb = proj::canonical(&fb);
     if ca == cb {
@@ -210,4 +210,10 @@ pub fn run(ctx: &Ctx, exe: &std::path::PathBuf, out: &mut Outcome) {
     // fixed probe
     let res = run_generated(ctx, exe, "legacy-two-replies", || proptest::strategy::Strategy::boxed(proptest::strategy::Just(vec![0u32])), 1, 1, |ex, _t: &Vec<u32>, st| legacy_two_replies(ex, st));
     to_outcome(ctx, "legacy-two-replies", res, out);
+}
+
+/// The macro accepted the program, so its output has to be Rust: output that does not parse is
+/// a violation of its own (the harness' parser is syn 2 with the `full` feature).
+fn unparsable(e: String) -> Bad {
+    viol("unparsable-output", "the expansion of an accepted program does not parse as Rust", json!({"error": e}))
 }
